@@ -126,6 +126,7 @@ def run(ctx, res):
             care = Mx.AND(st.pc, valid)
             if any(t in st.tags for t in ("opaque-switch", "opaque-assert", "unknown-callee")):
                 res.errors.append("imprecise trace in %s: %r" % (op, st.tags))
+                continue     # an imprecisely followed trace decides nothing
             if o.kind == "panic":
                 if care != 0:
                     res.ob(False)
